@@ -34,8 +34,30 @@ def _limits():
     os.setsid()
 
 
+_MODULES = None
+
+
+def qualified(name):
+    """module::function for a harness; Kani's --harness filter matches substrings unless --exact is
+    given, and two harness names here are prefixes of others."""
+    global _MODULES
+    if _MODULES is None:
+        _MODULES = {}
+        src = os.path.join(KANI_CRATE, "src")
+        for fn in os.listdir(src):
+            if fn.startswith("h_") and fn.endswith(".rs"):
+                text = open(os.path.join(src, fn)).read()
+                for m in re.finditer(r"fn (c\d\d_\w+)\(\)", text):
+                    _MODULES[m.group(1)] = fn[:-3]
+                for m in re.finditer(r"!\(\s*(c\d\d_\w+)\s*,", text):
+                    _MODULES[m.group(1)] = fn[:-3]
+    if name not in _MODULES:
+        raise RuntimeError(f"harness {name} not found in {KANI_CRATE}/src")
+    return f"{_MODULES[name]}::{name}"
+
+
 def kani_cmd(target_dir, harnesses, only_codegen=False, playback=True):
-    cmd = ["cargo", "kani", "-Z", "stubbing", "--target-dir", target_dir]
+    cmd = ["cargo", "kani", "-Z", "stubbing", "--exact", "--target-dir", target_dir]
     if playback:
         # concrete playback makes CBMC produce a trace per cover/failure (measured 2.6x slower),
         # so it is on for cheap harnesses (their cover witnesses become evidence samples) and
@@ -44,7 +66,7 @@ def kani_cmd(target_dir, harnesses, only_codegen=False, playback=True):
     if only_codegen:
         cmd.append("--only-codegen")
     for h in harnesses:
-        cmd += ["--harness", h]
+        cmd += ["--harness", qualified(h)]
     return cmd
 
 
@@ -125,7 +147,12 @@ def parse_result(text):
     if not r["failed_checks"]:
         for m in re.finditer(r"Failed Checks: ([^\n]+)", text):
             r["failed_checks"].append({"desc": m.group(1).strip()})
-    if "VERIFICATION:- SUCCESSFUL" in text:
+    n_harnesses = len(re.findall(r"^Checking harness ", text, re.M))
+    if n_harnesses != 1:
+        r["status"] = "inconclusive"  # the filter must select exactly one harness
+        r["failed_checks"].append({"desc": f"{n_harnesses} harnesses matched the filter (expected exactly one)"})
+        return r
+    if "VERIFICATION:- FAILED" not in text and "VERIFICATION:- SUCCESSFUL" in text:
         r["status"] = "success"
     elif "VERIFICATION:- FAILED" in text:
         # distinguish real assertion failures from unwinding / unsupported / OOM
